@@ -90,11 +90,11 @@ Qed.
 
 (* after a failed top-level frame that started with an empty undo map, UndoCoinbasesDeleted has
    nothing left to restore: it leaves the batch as it is *)
-Lemma undo_after_failed_top_is_noop body st :
+Lemma undo_after_failed_top_is_noop fixd body st :
   e_deleted st = [] ->
-  e_batch (evm_undo (eexec false (ECall body true) st)) = e_batch (eexec false (ECall body true) st).
+  e_batch (evm_undo (eexec fixd (ECall body true) st)) = e_batch (eexec fixd (ECall body true) st).
 Proof.
-  intros E. destruct (failed_call_lists false body st) as (_ & _ & D & _). unfold evm_undo. cbn [e_batch].
+  intros E. destruct (failed_call_lists fixd body st) as (_ & _ & D & _). unfold evm_undo. cbn [e_batch].
   rewrite D, E. reflexivity.
 Qed.
 
@@ -222,3 +222,12 @@ Qed.
 
 Lemma good_start db : good (mkEvm [] [] [] [] db).
 Proof. split; [exact I|]. intros k v H. discriminate H. Qed.
+
+Lemma failed_frame_lockups_code body st k :
+  good st -> (code_fixd = true \/ forallb no_claim body = true) ->
+  lk_view (eexec code_fixd (ECall body true) st) k = lk_view st k.
+Proof.
+  intros G H. destruct code_fixd eqn:E.
+  - apply failed_frame_lockups_fixed. exact G.
+  - destruct H as [H|H]; [discriminate|]. apply failed_frame_lockups_no_claim. exact H.
+Qed.
